@@ -15,6 +15,7 @@ import functools
 import http.cookiejar
 import io
 import os
+import re
 import shutil
 import tempfile
 
@@ -608,7 +609,9 @@ def layer_crawl(tape, r, tier):
             # (out['fatal'] is filled by Application.run's pipeline-level handler only: whatever its type, the exception
             # left a pipeline and ended the crawl instead of failing one URL)
             fatal = (out.get('fatal') or [''])[0]
-            last = [ln for ln in fatal.strip().split('\n') if ln.strip()][-1:] or ['?']
+            # the line that names the exception (its message may run over several lines)
+            last = [ln for ln in fatal.strip().split('\n') if re.match(r'^[A-Za-z_][\w.]*(Error|Exception|Exit|Interrupt|Warning)\b', ln)][-1:] \
+                or [ln for ln in fatal.strip().split('\n') if ln.strip()][-1:] or ['?']
             where = [ln.strip() for ln in fatal.split('\n') if 'File "' in ln and '/wpull/' in ln][-1:] or ['?']
             r.violate(P, 'crawl-ended', '%s:%s' % ('unexpected-crash-path' if out['crashed'] or out['exit'] == 1 else 'pipeline-ended-by-error', last[0].split(':')[0].strip()[:40]),
                       'an exception left the download pipeline and ended the crawl (exit %r) with hostile resources %r: %s at %s\n%s'
